@@ -123,6 +123,14 @@ type Op struct {
 	W     int    `json:"w,omitempty"` // writer slot: which BlobWriter value of the session is used (0 = the only one, sequential histories)
 }
 
+// via names the writer slot when it is not the session's first writer value.
+func (o Op) via() string {
+	if o.W == 0 {
+		return ""
+	}
+	return fmt.Sprintf("/writer%d", o.W)
+}
+
 func (o Op) String() string {
 	switch o.K {
 	case "PushBlob":
@@ -150,12 +158,12 @@ func (o Op) String() string {
 		}
 		return fmt.Sprintf("Start(%s)", o.Repo)
 	case "Write":
-		return fmt.Sprintf("Write(h%d,%q)", o.H, o.Piece)
+		return fmt.Sprintf("Write(h%d%s,%q)", o.H, o.via(), o.Piece)
 	case "Resume":
 		if o.Off == "num" {
-			return fmt.Sprintf("Resume(h%d,off=%d)", o.H, o.N)
+			return fmt.Sprintf("Resume(h%d%s,off=%d)", o.H, o.via(), o.N)
 		}
-		return fmt.Sprintf("Resume(h%d,off=%s)", o.H, o.Off)
+		return fmt.Sprintf("Resume(h%d%s,off=%s)", o.H, o.via(), o.Off)
 	case "Commit":
 		if o.Bad != "" {
 			return fmt.Sprintf("Commit(h%d,wrong-digest)", o.H)
@@ -163,7 +171,7 @@ func (o Op) String() string {
 		if o.Off == "recommit" {
 			return fmt.Sprintf("Commit(h%d,digest-of-the-first-commit-again)", o.H)
 		}
-		return fmt.Sprintf("Commit(h%d)", o.H)
+		return fmt.Sprintf("Commit(h%d%s)", o.H, o.via())
 	case "Cancel":
 		return fmt.Sprintf("Cancel(h%d)", o.H)
 	case "Reads":
@@ -202,6 +210,11 @@ type alphabetConfig struct {
 	FinishedOps bool     // also resume/write/cancel on committed or cancelled upload sessions
 	ExplicitIDs bool     // also start upload sessions under one caller-chosen ID in each repository
 	BadNames    []string // extra (hostile) repository names used for pushes, mounts and deletes
+	// TwoHandles: an open session may be resumed into a second writer value (slot 1) while the first
+	// (slot 0) stays in the caller's hands, and both are then used in any order: a writer that was
+	// opened for an offset the session has since left must be refused (direct stacks only: over
+	// HTTP a writer value keeps its own offset and the registry cannot tell stale from current)
+	TwoHandles bool
 }
 
 // staticOps lists the non-upload operations, simplest first.
@@ -226,6 +239,9 @@ func (u *universe) staticOps(c alphabetConfig) []Op {
 				continue
 			}
 			ops = append(ops, Op{K: "PushBlob", Repo: repos[0], B: b, Bad: "digest"}, Op{K: "PushBlob", Repo: repos[0], B: b, Bad: "size"})
+			if c.TwoHandles || c.AltBlobMT { // direct stacks only (over HTTP the declared size is the Content-Length of the request)
+				ops = append(ops, Op{K: "PushBlob", Repo: repos[0], B: b, Bad: "overlong"})
+			}
 		}
 	}
 	if c.ReadsOp {
